@@ -220,6 +220,14 @@ def make_monitors():
 def gen_kwargs(rng):
     k = rng.random()
     inexact = k < 0.02
+    if k > 0.95:
+        # 8-9 handed stud played to seventh street (the deck cannot cover
+        # the last down cards); see pol_tweak for the unrecorded seats
+        return dict(
+            games=gen.STUD_GAMES, customs=(), chip_types=('int',),
+            strict_p=1.0, min_n=rng.choice([8, 9, 9]), max_boards=1,
+            hostile_chips=False,
+            auto_styles=('any', 'none', 'typical', 'all'))
     return dict(
         customs=CUSTOMS, p_custom=0.25,
         chip_types=(('float', 'Decimal') if inexact
@@ -238,6 +246,30 @@ def cfg_filter(cfg, rng):
 
 
 def pol_tweak(pol, cfg, rng):
+    if cfg.get('game') in gen.STUD_GAMES and cfg['n'] >= 8 and \
+            cfg['chip_type'] == 'int' and \
+            min(cfg['stacks']) >= 15 * cfg['bb'] * cfg['unit']:
+        pol['policy'] = 'passive'
+        if rng.random() < 0.7:
+            # hand-history style play: one or two seats whose down cards
+            # were never recorded (??); they give up on a later street (in
+            # a cash game a player may fold without facing a bet), so every
+            # hand that reaches the showdown is known
+            seats = rng.sample(range(cfg['n']), rng.choice([1, 1, 2]))
+            pol['deal'] = 'mixedunknown'
+            pol['unknown_seats'] = seats
+            pol['unknown_up'] = rng.random() < 0.5
+            pol['fold_seats'] = {i: rng.randint(0, 3) for i in seats}
+            cfg['autos'] = [a for a in cfg['autos']
+                            if a not in ('HOLE_DEALING', 'CARD_BURNING')]
+            cfg['mode'] = 'CASH_GAME'
+            cfg['strict'] = False
+            # deep enough never to be all-in before they give up
+            stacks = list(cfg['stacks'])
+            for i in seats:
+                stacks[i] = 1000 * cfg['bb'] * cfg['unit']
+            cfg['stacks'] = stacks
+        return
     if rng.random() < 0.15:
         pol['voluntary_show'] = 0.3
     if rng.random() < 0.12:
